@@ -43,7 +43,7 @@ func runTwin(c *core.Ctx, which string) {
 	if workers > 14 {
 		workers = 14
 	}
-	c.RunSharded(cases, core.ShardOpts{Mode: "twin-" + which, Workers: workers, Timeout: 40 * time.Minute})
+	c.RunSharded(cases, core.ShardOpts{Mode: "twin-" + which, Workers: workers, Timeout: 40 * time.Minute, PerCaseTime: 20 * time.Second})
 }
 
 func evaluatingSet(evs []pj.Event) []string {
